@@ -187,6 +187,15 @@ func renderEexec(v *eexecVec, rng *rand.Rand) ([]byte, error) {
 			}
 		}
 	}
+	// position of the section: for most vectors a leading comment moves the first cipher byte to the
+	// offsets around the scanner's refill boundary (the four peeked lead bytes then straddle a refill)
+	if tgt := []int{0, 509, 510, 511, 512, 513, 1021, 1023}[rng.Intn(8)]; tgt > 0 {
+		pad := ((tgt-len(out))%512 + 512) % 512
+		if pad < 2 {
+			pad += 512
+		}
+		out = append([]byte("%"+strings.Repeat("x", pad-2)+"\n"), out...)
+	}
 	encSection(plain)
 	switch v.Trailer {
 	case "zeros":
